@@ -233,6 +233,59 @@ def special_files(rng: random.Random) -> List[Tuple[str, bytes]]:
     return out
 
 
+def sparse_indexed_files(rng: random.Random, n: int) -> List[Tuple[str, bytes, bool]]:
+    """indexed sprites over sparse palettes (legacy packets with skips, new-format ranges with first > 0, both) whose pixels fall
+    on present indices, into the holes, or beyond the last index; in raw cels, zlib cels, tilesets and tilemap-rendered tiles.
+    (description, bytes, every pixel index is present)"""
+    out = []
+    for i in range(n):
+        chunks: List[ase.Chunk] = []
+        present = set()
+        kind = rng.choice(["old", "old", "new", "both"])
+        if kind in ("old", "both"):
+            pos = 0
+            packets = []
+            for pk in range(rng.randint(1, 4)):
+                skip = rng.choice([0, 1, 2, 5]) if (pk > 0 or rng.random() < 0.5) else 0     # half of the palettes contain index 0
+                cnt = rng.randint(1, 3)
+                pos += skip
+                present.update(range(pos, pos + cnt))
+                packets.append((skip, [(rng.randrange(64), rng.randrange(64), rng.randrange(64)) for _ in range(cnt)]))
+            chunks.append(ase.OldPaletteChunk(kind=rng.choice([ase.CT_OLD_PALETTE_04, ase.CT_OLD_PALETTE_11]), packets=packets))
+        if kind in ("new", "both"):
+            first = rng.choice([0, 1, 3, 200])
+            cnt = rng.randint(1, 5)
+            if kind == "new":
+                present = set(range(first, first + cnt))
+            else:
+                present = set(range(first, first + cnt)) if rng.random() < 2 else present   # the new palette replaces the legacy one
+            chunks.append(ase.PaletteChunk(first=first, entries=[(rng.randrange(256), rng.randrange(256), rng.randrange(256), 255)] * cnt))
+        hi = max(present)
+        holes = [x for x in range(0, hi) if x not in present]
+        cands = sorted(present)
+        where = rng.choice(["ok", "hole", "beyond", "top", "ok"])
+        if where == "hole" and holes:
+            bad = rng.choice(holes)
+        elif where == "beyond":
+            bad = rng.choice([hi + 1, len(present), 255])
+            bad = bad if bad not in present else None
+        else:
+            bad = None
+        good = hi if where == "top" else rng.choice(cands)
+        px = [good if bad is None or k != 2 else bad for k in range(4)]
+        place = rng.choice(["raw", "zlib", "tileset"])
+        if place == "tileset":
+            chunks.append(ase.TilesetChunk(id=0, tile_count=2, tile_w=2, tile_h=1, pixels=bytes(px)))
+            chunks.append(ase.LayerChunk(ltype=2, tileset=0))
+            chunks.append(ase.CelChunk(layer=0, ctype_cel=3, w=2, h=2, tiles=[0, 1, 1, 0]))
+        else:
+            chunks.append(ase.LayerChunk(flags=rng.choice([1, 9])))
+            chunks.append(ase.CelChunk(layer=0, w=2, h=2, pixels=bytes(px), ctype_cel=0 if place == "raw" else 2))
+        data = ase.serialize(ase.Sprite(width=4, height=2, depth=8, transparent=rng.choice([0, good, 77]), frames=[ase.Frame(chunks=chunks)]))
+        out.append(("sparse palette %s present=%s pixel=%s in %s" % (kind, sorted(present)[:8], bad if bad is not None else good, place), data, bad is None))
+    return out
+
+
 def corruption_stream(rng: random.Random, tier: str, w: Work, scale: float = 1.0) -> List[Tuple[str, str]]:
     """(path, description) of malformed inputs: single-field boundary corruption, truncation, multi-field
     corruption, chunk edits, bit flips, hostile shapes"""
@@ -269,6 +322,8 @@ def corruption_stream(rng: random.Random, tier: str, w: Work, scale: float = 1.0
             out.append((w.put(mut, "tr"), name + ":" + desc))
     for name, data in special_files(rng):
         out.append((w.put(data, "sp"), "special:" + name))
+    for desc, data, _ok in sparse_indexed_files(rng, 400 if tier == "quick" else 3000):
+        out.append((w.put(data, "ix"), "special:" + desc))
     for i in range(300 if tier == "quick" else 3000):
         n = rng.choice([0, 1, 5, 127, 128, 129, 200])
         out.append((w.put(bytes(rng.randrange(256) for _ in range(n)), "rnd"), "random bytes %d" % n))
@@ -368,6 +423,14 @@ def check_C13(tier: str, seed: int) -> int:
                 bases.append(("gen%d" % i, data))
         for p in small_corpus(1300 if tier == "quick" else 16384):
             bases.append((p, open(p, "rb").read()))
+        # endings where a missing length check would go unnoticed: an ignorable chunk with a body, a padded chunk,
+        # a user-data chunk, an empty last frame, a frame that uses only the old chunk-count field
+        for k, last in enumerate([ase.RawChunk(ase.CT_CEL_EXTRA, bytes(range(36))), ase.RawChunk(ase.CT_MASK, b"m" * 20), ase.RawChunk(ase.CT_PATH, b"p" * 9),
+                                  ase.UserDataChunk(text="tail"), ase.LayerChunk(name="z", tail=b"\1\2\3\4\5"), None]):
+            for mode in ("both", "old"):
+                fr0 = ase.Frame(chunks=[ase.LayerChunk(name="a"), ase.CelChunk(layer=0, w=1, h=1, pixels=b"\1\2\3\4", ctype_cel=0)], count_mode=mode)
+                fr1 = ase.Frame(chunks=[last] if last is not None else [], count_mode=mode)
+                bases.append(("ending%d_%s" % (k, mode), ase.serialize(ase.Sprite(width=1, height=1, frames=[fr0, fr1]))))
         cases = []   # (path, base name, cut, must_fail)
         for name, data in bases:
             end = end_of_last_frame(data)
@@ -1343,7 +1406,7 @@ def check_C17(tier, seed):
 # ==========================================================================
 def check_C07(tier: str, seed: int) -> int:
     v = Verdict("C07", tier, seed, "proof")
-    ob = vplib.check_obligations("C07")
+    ob = vplib.check_obligations("C07", expected=["C07_trailer", "C07_ignorable_chunk_file", "C07_color_profile_chunk", "C07_chunk_tail_all", "C07_unused_header", "C07_pixel_ratio", "C07_count_field_load", "C07_raw_vs_zlib", "C07_legacy_palette", "C07_cel_order"])
     vplib.build_harness(["release"])
     w = Work("C07")
     try:
@@ -1613,6 +1676,8 @@ def check_C11(tier: str, seed: int) -> int:
             chunks += [ase.LayerChunk(), ase.CelChunk(layer=0, w=2, h=2, pixels=px, ctype_cel=0 if which == "cel_raw" else 2)]
             data = ase.serialize(ase.Sprite(width=2, height=2, depth=8, frames=[ase.Frame(chunks=chunks)]))
             cases.append(("indexed:" + which, None, data, which != "ok", "missing index %d" % missing))
+        for desc, data, all_present in sparse_indexed_files(rng, 150 if tier == "quick" else 2500):
+            cases.append(("sparse:" + ("ok" if all_present else "missing"), None, data, not all_present, desc))
         paths = [w.put(c[2]) for c in cases]
         res = {prof: vplib.impl_observe(prof, paths, w.dir, 1) for prof in ("release", "dev")}
         mb = vplib.model_observe(paths, w.dir, 1)
@@ -1901,6 +1966,41 @@ def c12_inputs(rng: random.Random, tier: str) -> List[Tuple[str, bytes]]:
         ase.LayerChunk(), ase.CelChunk(layer=0, w=65535, h=65535, zraw=ase.deflate(b"\0" * (1 << 24), 9), ctype_cel=2)])]))))
     out.append(("bomb tileset", ase.serialize(ase.Sprite(width=4, height=4, frames=[ase.Frame(chunks=[
         ase.TilesetChunk(id=0, tile_count=1024, tile_w=32, tile_h=32, pixels=b"\0" * (1024 * 32 * 32 * 4), zlevel=9)])]))))
+    # bombs large enough for the per-byte term to dominate the 64 MiB constant (64 MiB inflated from ~65 KB)
+    zeros64 = ase.deflate(b"\0" * (4097 * 4096 * 4), 9)
+    out.append(("bomb tilemap 4097x4096 tiles", ase.serialize(ase.Sprite(width=4, height=4, frames=[ase.Frame(chunks=[
+        ase.TilesetChunk(id=0, tile_count=1, tile_w=1, tile_h=1, pixels=b"\0" * 4), ase.LayerChunk(ltype=2, tileset=0),
+        ase.CelChunk(layer=0, ctype_cel=3, w=4097, h=4096, zraw=zeros64)])]))))
+    out.append(("bomb cel rgba 4097x4096", ase.serialize(ase.Sprite(width=4, height=4, frames=[ase.Frame(chunks=[
+        ase.LayerChunk(), ase.CelChunk(layer=0, ctype_cel=2, w=4097, h=4096, zraw=zeros64)])]))))
+    out.append(("bomb tileset 4097 tiles of 64x64", ase.serialize(ase.Sprite(width=4, height=4, frames=[ase.Frame(chunks=[
+        ase.TilesetChunk(id=0, tile_count=4097, tile_w=64, tile_h=64, zraw=zeros64)])]))))
+    # two declared fields inflated together (frame size + chunk count, chunk size + frame size, width + height, count + size)
+    for name, data in bases:
+        fs = [f for f in ase.mutable_fields(data) if f.kind in ("size", "count", "dim", "length")]
+        for _ in range(25 if tier == "quick" else 200):
+            if len(fs) < 2:
+                break
+            a, b = rng.sample(fs, 2)
+            mut = data
+            desc = []
+            for f in (a, b):
+                top = (1 << (8 * f.width)) - 1
+                vv = rng.choice([top, top - 1, (top + 1) // 2, 1 << 24 if f.width == 4 else top])
+                mut = ase.set_field(mut, f, vv)
+                desc.append("%s@%d->%d" % (f.name, f.offset, vv))
+            out.append(("%s:pair %s" % (name, " + ".join(desc)), mut))
+        # every frame header: byte size and chunk count inflated together
+        hdr = [f for f in ase.walk(data) if f.name.startswith("frame") and (f.name.endswith(".nbytes") or f.name.endswith(".nchunks_new"))]
+        for vsize in (2 ** 32 - 1, 2 ** 31, 2 ** 30):
+            for vcount in (2 ** 32 - 1, 2 ** 28, 65535):
+                mut = data
+                for f in hdr:
+                    if f.name.endswith("nbytes"):
+                        mut = ase.set_field(mut, f, vsize)
+                    elif f.name.endswith("nchunks_new"):
+                        mut = ase.set_field(mut, f, vcount)
+                out.append(("%s:frame sizes %d + chunk counts %d" % (name, vsize, vcount), mut))
     out.append(("bomb tilemap", ase.serialize(ase.Sprite(width=4, height=4, frames=[ase.Frame(chunks=[
         ase.TilesetChunk(id=0, tile_count=1, tile_w=1, tile_h=1, pixels=b"\0" * 4), ase.LayerChunk(ltype=2, tileset=0),
         ase.CelChunk(layer=0, ctype_cel=3, w=2048, h=512, tiles=[0] * (2048 * 512), zlevel=9)])]))))
@@ -1930,11 +2030,15 @@ def check_C12(tier: str, seed: int) -> int:
     w = Work("C12")
     try:
         rng = random.Random(seed)
+        t0 = time.time()
         inputs = c12_inputs(rng, tier)
         paths = [w.put(d) for _, d in inputs]
+        log("C12: %d inputs generated in %.1fs" % (len(inputs), time.time() - t0)); t0 = time.time()
         res = vplib.run_sharded([vplib.impl_driver("release"), "alloc"], paths, w.dir, "alloc", shards=8, timeout=2400, mem_kb=12 * 1024 * 1024)
-        small = [i for i, (_, d) in enumerate(inputs) if len(d) <= 200000]
+        log("C12: implementation measured in %.1fs" % (time.time() - t0)); t0 = time.time()
+        small = [i for i, (_, d) in enumerate(inputs) if len(d) <= 20000]
         mres = vplib.model_observe([paths[i] for i in small], w.dir, 0)
+        log("C12: model ran on %d inputs in %.1fs" % (len(small), time.time() - t0)); t0 = time.time()
         mb = {i: mres[j] for j, i in enumerate(small)}
         corr_fail, direct_fail = [], []
         worst = (0.0, None)
